@@ -133,8 +133,8 @@ Qed.
 
 Lemma has_dicts_dict_ok : forall t, has_dicts t = dict_ok t.
 Proof.
+  (* the two fixpoints have the same body *)
   induction t as [tg rt|tg rt x IH|d ms IH] using tree_ind'; simpl; auto.
-  f_equal. induction IH as [|p r H F IHF]; simpl; auto. rewrite H, IHF. reflexivity.
 Qed.
 
 Lemma has_dicts_set_rt : forall b t, has_dicts (set_rt b t) = has_dicts t.
@@ -202,3 +202,445 @@ Proof.
     + rewrite MS, SAME. apply IH with (cms := cms); auto.
   - rewrite MS. apply IH with (cms := cms); auto.
 Qed.
+
+Lemma buffered_final_container : forall buf n om d ms,
+  final (buffered buf n om) = Obj d ms -> is_container (nkind d) = true -> final om = Obj d ms /\ buffered buf n om = om.
+Proof.
+  intros buf n om d ms F C. unfold buffered in *. destruct (hit1 buf n) as [ovs|]; [|auto].
+  unfold set_ov in *. destruct (final om) as [d0 ms0|tg rt|tg rt y] eqn:FO; auto.
+  - destruct (kind_eqb (nkind d0) KFun) eqn:K; auto.
+    + rewrite final_retarget_obj in F. inversion F; subst. simpl in C.
+      destruct (nkind d0); simpl in *; discriminate.
+    + rewrite FO in F. auto.
+  - rewrite FO in F. discriminate.
+  - pose proof (final_not_alto om) as NA. rewrite FO in NA. discriminate.
+Qed.
+
+Lemma kind_eqb_eq : forall a b, kind_eqb a b = true -> a = b.
+Proof. intros [] []; simpl; auto; discriminate. Qed.
+Lemma kind_eqb_refl : forall a, kind_eqb a a = true.
+Proof. intros []; reflexivity. Qed.
+
+Lemma wfs_member : forall d ms n m, wfs (Obj d ms) -> In (n, m) ms -> wfs m.
+Proof.
+  intros d ms n m W I. pose proof (wfs_members d ms W) as F. rewrite Forall_forall in F. exact (F (n, m) I).
+Qed.
+
+(* The loader's second merge of a pair that merged before does exactly this: stub-only members, moved into the runtime
+   tree by the first merge, are merged into themselves; nothing else changes, at any depth. *)
+Theorem second_merge_resettles : forall s,
+  wfs s -> has_dicts s = true -> root_container s = true ->
+  forall o r, merge_obj s o = Done r -> remerge s o r = Done (resettle s o r).
+Proof.
+  induction s as [tg rt|tg rt x _|sd sms IH] using tree_ind'; intros W HD RC o r M; [discriminate|discriminate|].
+  destruct o as [od oms|tg rt|tg rt x]; [|simpl in M; discriminate|simpl in M; discriminate].
+  pose proof W as (NDm & _ & NDi & NDb & _).
+  destruct (field_table _ _ _ _ _ M NDm NDb) as (rms & -> & _ & T).
+  cbn [remerge resettle].
+  assert (E : with_imp (with_doc
+              (with_imp (with_doc od (merge_doc (ndoc od) (ndoc sd))) (update_imports (nimp od) (nimp sd)))
+              (merge_doc (ndoc (with_imp (with_doc od (merge_doc (ndoc od) (ndoc sd))) (update_imports (nimp od) (nimp sd)))) (ndoc sd)))
+              (update_imports (nimp (with_imp (with_doc od (merge_doc (ndoc od) (ndoc sd))) (update_imports (nimp od) (nimp sd)))) (nimp sd))
+            = with_imp (with_doc od (merge_doc (ndoc od) (ndoc sd))) (update_imports (nimp od) (nimp sd))).
+  { destruct od; unfold with_imp, with_doc; simpl. rewrite merge_doc_idem, (update_imports_idem _ _ NDi). reflexivity. }
+  rewrite E. clear E.
+  rewrite (remerge_members_resettle remerge resettle sms oms rms NDm); auto.
+  intros n sm I.
+  pose proof (in_lookup_nodup _ _ _ _ NDm I) as LS.
+  pose proof (wfs_member _ _ _ _ W I) as Wm.
+  pose proof (has_dicts_member _ _ _ _ HD I) as HDm.
+  rewrite Forall_forall in IH. specialize (IH (n, sm) I). simpl in IH.
+  rewrite (T n). unfold table. rewrite LS. unfold one, merged_state.
+  destruct (lookup n oms) as [om|] eqn:LO; simpl.
+  - eexists; split; [reflexivity|].
+    destruct sm as [smd smms|tg rt|tg rt y]; auto.
+    set (om1 := buffered (buf_of sd) n om) in *.
+    cbn [member_result].
+    destruct (final om1) as [omd omms|tg rt|tg rt y] eqn:F1.
+    + destruct (kind_eqb (nkind omd) (nkind smd)) eqn:K.
+      * apply kind_eqb_eq in K.
+        destruct (nkind omd) eqn:KO.
+        -- (* module *)
+           assert (C : is_container (nkind omd) = true) by (rewrite KO; reflexivity).
+           destruct (buffered_final_container _ _ _ _ _ F1 C) as (FO & _).
+           assert (RCm : root_container (Obj smd smms) = true) by (simpl; now rewrite <- K).
+           assert (DKm : dict_ok (Obj smd smms) = true) by (now rewrite <- has_dicts_dict_ok).
+           destruct (never_raises _ DKm RCm omd omms) as (t' & Mt).
+           rewrite Mt. cbn [out_tree].
+           pose proof Wm as (NDm' & _ & _ & NDb' & _).
+           destruct (scope_level _ _ _ _ _ Mt NDm' NDb') as (rd & rms' & -> & Kr & _).
+           rewrite final_retarget_obj. rewrite Kr, KO. rewrite <- K. cbn [kind_eqb].
+           rewrite FO. apply IH; auto.
+        -- (* class *)
+           assert (C : is_container (nkind omd) = true) by (rewrite KO; reflexivity).
+           destruct (buffered_final_container _ _ _ _ _ F1 C) as (FO & _).
+           assert (RCm : root_container (Obj smd smms) = true) by (simpl; now rewrite <- K).
+           assert (DKm : dict_ok (Obj smd smms) = true) by (now rewrite <- has_dicts_dict_ok).
+           destruct (never_raises _ DKm RCm omd omms) as (t' & Mt).
+           rewrite Mt. cbn [out_tree].
+           pose proof Wm as (NDm' & _ & _ & NDb' & _).
+           destruct (scope_level _ _ _ _ _ Mt NDm' NDb') as (rd & rms' & -> & Kr & _).
+           rewrite final_retarget_obj. rewrite Kr, KO. rewrite <- K. cbn [kind_eqb].
+           rewrite FO. apply IH; auto.
+        -- rewrite final_retarget_obj. rewrite merge_fun_kind, KO. rewrite <- K. simpl.
+           apply merge_fun_idem. destruct Wm as (_ & NP & _). exact NP.
+        -- rewrite final_retarget_obj. simpl. rewrite KO. rewrite <- K. simpl.
+           apply merge_attr_idem.
+      * rewrite F1, K. trivial.
+    + rewrite F1. trivial.
+    + rewrite F1. trivial.
+  - eexists; split; [reflexivity|].
+    destruct sm as [smd smms|tg rt|tg rt y]; auto.
+Qed.
+
+(* ------------------------------------------------------------------ idempotence up to buffers, modulo finding C19-F5 *)
+Definition fun_final (t : tree) : bool :=
+  match final t with Obj d _ => kind_eqb (nkind d) KFun | _ => false end.
+
+(* the pending overload groups of a scope name none of its own functions (overloads precede their implementation) *)
+Definition quiet_scope (buf : list (string * list string)) (ms : list (string * tree)) : bool :=
+  forallb (fun e => match snd e with
+                    | [] => true
+                    | _ :: _ => match lookup (fst e) ms with Some m => negb (fun_final m) | None => true end
+                    end) buf.
+
+Fixpoint quiet (t : tree) : bool :=
+  match t with
+  | Obj d ms => (if is_container (nkind d) then quiet_scope (buf_of d) ms else true)
+                && forallb (fun p => quiet (snd p)) ms
+  | _ => true
+  end.
+
+Section QuietMoved.
+  Variable rec : tree -> tree -> bool.
+  Fixpoint quiet_moved_members (sl oms0 : list (string * tree)) : bool :=
+    match sl with
+    | [] => true
+    | (n, sm) :: r =>
+        match sm with
+        | Obj smd _ =>
+            match lookup n oms0 with
+            | None => quiet sm
+            | Some om0 =>
+                match final om0 with
+                | Obj omd omms =>
+                    if kind_eqb (nkind omd) (nkind smd) && is_container (nkind omd) then rec sm (Obj omd omms) else true
+                | _ => true
+                end
+            end
+        | _ => true
+        end && quiet_moved_members r oms0
+    end.
+End QuietMoved.
+
+(* the complement of the gap predicate of C19-F5: every stub-only class / module (at any depth reached by the merge) is quiet *)
+Fixpoint quiet_moved (s o : tree) {struct s} : bool :=
+  match s, o with
+  | Obj sd sms, Obj od oms => quiet_moved_members quiet_moved sms oms
+  | _, _ => true
+  end.
+
+Definition map_snd (f : tree -> tree) (l : list (string * tree)) : list (string * tree) :=
+  map (fun p => (fst p, f (snd p))) l.
+
+Lemma settle_eq : forall d ms,
+  settle (Obj d ms) = if is_container (nkind d)
+                      then Obj (with_ov d (OvDict [])) (apply_buffer (buf_of d) (map_snd settle ms))
+                      else Obj d ms.
+Proof.
+  intros. simpl. destruct (is_container (nkind d)); auto. f_equal. f_equal.
+  induction ms as [|[n m] r IH]; simpl; auto. now rewrite IH.
+Qed.
+
+Lemma erase_eq : forall d ms,
+  erase_buf (Obj d ms) = Obj (match nov d with OvDict _ => with_ov d (OvDict []) | _ => d end) (map_snd erase_buf ms).
+Proof.
+  intros. simpl. f_equal. induction ms as [|[n m] r IH]; simpl; auto. now rewrite IH.
+Qed.
+
+Lemma lookup_map_snd : forall f n l, lookup n (map_snd f l) = option_map f (lookup n l).
+Proof.
+  induction l as [|[k v] r IH]; simpl; auto. destruct (String.eqb k n); auto.
+Qed.
+
+Lemma map_snd_assign : forall f n v l, map_snd f (assign n v l) = assign n (f v) (map_snd f l).
+Proof.
+  induction l as [|[k w] r IH]; simpl; auto. destruct (String.eqb k n); simpl; auto. now rewrite IH.
+Qed.
+
+Lemma apply_buffer_quiet : forall buf l,
+  (forall fn x ovs m, In (fn, x :: ovs) buf -> lookup fn l = Some m -> set_ov m (x :: ovs) = m) ->
+  apply_buffer buf l = l.
+Proof.
+  induction buf as [|[fn ovs] r IH]; simpl; intros l H; auto.
+  destruct ovs as [|x ovs]; [apply IH; intros; eapply H; eauto|].
+  destruct (lookup fn l) as [m|] eqn:L; [|apply IH; intros; eapply H; eauto].
+  rewrite (H fn x ovs m) by auto. rewrite assign_same by auto. apply IH; intros; eapply H; eauto.
+Qed.
+
+Lemma set_ov_not_fun : forall m ovs, fun_final m = false -> set_ov m ovs = m.
+Proof.
+  intros m ovs F. unfold set_ov, fun_final in *. destruct (final m); auto. now rewrite F.
+Qed.
+
+Lemma fun_final_settle : forall m, fun_final (settle m) = fun_final m.
+Proof.
+  intros [d ms|tg rt|tg rt x]; auto. rewrite settle_eq. unfold fun_final.
+  destruct (is_container (nkind d)) eqn:C; auto.
+Qed.
+
+Lemma with_ov_twice : forall d x, with_ov (with_ov d x) x = with_ov d x.
+Proof. destruct d; reflexivity. Qed.
+
+Lemma settle_erase : forall t, quiet t = true -> has_dicts t = true -> erase_buf (settle t) = erase_buf t.
+Proof.
+  induction t as [tg rt|tg rt x _|d ms IH] using tree_ind'; intros Q HD; auto.
+  rewrite settle_eq. destruct (is_container (nkind d)) eqn:C; auto.
+  simpl in Q, HD. rewrite C in Q, HD.
+  apply andb_true_iff in Q. destruct Q as [QS QM]. apply andb_true_iff in HD. destruct HD as [HV HM].
+  rewrite apply_buffer_quiet.
+  - rewrite !erase_eq. destruct (nov d) eqn:NV; try discriminate. simpl. rewrite with_ov_twice. f_equal.
+    rewrite forallb_forall in QM, HM. rewrite Forall_forall in IH.
+    clear - IH QM HM. unfold map_snd. induction ms as [|[n m] r IHr]; simpl; auto.
+    assert (E : erase_buf (settle m) = erase_buf m).
+    { apply (IH (n, m)); [now left|apply (QM (n, m)); now left|apply (HM (n, m)); now left]. }
+    rewrite E. f_equal. apply IHr.
+    + intros x Ix. apply IH. now right.
+    + intros x Ix. apply QM. now right.
+    + intros x Ix. apply HM. now right.
+  - intros fn x ovs m I L. rewrite lookup_map_snd in L.
+    destruct (lookup fn ms) as [m0|] eqn:L0; [|discriminate]. inversion L; subst.
+    apply set_ov_not_fun. rewrite fun_final_settle.
+    unfold quiet_scope in QS. rewrite forallb_forall in QS. specialize (QS _ I). simpl in QS. rewrite L0 in QS.
+    now apply negb_true_iff in QS.
+Qed.
+
+Lemma quiet_set_rt : forall b t, quiet (set_rt b t) = quiet t.
+Proof. intros b [d ms|tg rt|tg rt x]; reflexivity. Qed.
+
+Lemma erase_retarget : forall cm x, erase_buf x = erase_buf (final cm) -> erase_buf (retarget cm x) = erase_buf cm.
+Proof.
+  induction cm as [d ms|tg rt|tg rt y IH]; simpl; intros x E; auto. f_equal. auto.
+Qed.
+
+Lemma erase_ms_assign_same : forall n x cm acc, lookup n acc = Some cm -> erase_buf x = erase_buf cm ->
+  map_snd erase_buf (assign n x acc) = map_snd erase_buf acc.
+Proof.
+  intros. rewrite map_snd_assign. apply assign_same. rewrite lookup_map_snd, H. simpl. now f_equal.
+Qed.
+
+(* what the second merge does to the member under n leaves it unchanged up to buffers *)
+Definition resettle_neutral (rec' : tree -> tree -> tree -> tree) (oms0 : list (string * tree)) (n : string) (sm cm : tree) : Prop :=
+  match sm with
+  | Obj smd _ =>
+      match lookup n oms0 with
+      | None => erase_buf (settle cm) = erase_buf cm
+      | Some om0 =>
+          match final cm with
+          | Obj cmd cmms =>
+              if kind_eqb (nkind cmd) (nkind smd) && is_container (nkind cmd)
+              then erase_buf (rec' sm (final om0) (Obj cmd cmms)) = erase_buf (Obj cmd cmms)
+              else True
+          | _ => True
+          end
+      end
+  | _ => True
+  end.
+
+Lemma resettle_members_erase : forall rec' sl oms0 cms,
+  NoDup (names sl) ->
+  (forall n sm, In (n, sm) sl -> exists cm, lookup n cms = Some cm /\ resettle_neutral rec' oms0 n sm cm) ->
+  forall acc, (forall n, In n (names sl) -> lookup n acc = lookup n cms) ->
+  map_snd erase_buf (resettle_members rec' sl oms0 acc) = map_snd erase_buf acc.
+Proof.
+  intros rec'. induction sl as [|[n sm] r IH]; intros oms0 cms ND H acc AG; [reflexivity|].
+  inversion ND as [|? ? NI ND']; subst.
+  assert (H' : forall n0 sm0, In (n0, sm0) r -> exists cm, lookup n0 cms = Some cm /\ resettle_neutral rec' oms0 n0 sm0 cm)
+    by (intros; apply H; now right).
+  assert (KEEPA : forall v k, In k (names r) -> lookup k (assign n v acc) = lookup k cms).
+  { intros v k Ik. rewrite lookup_assign_other; [apply AG; now right|]. intros ->. contradiction. }
+  assert (KEEP0 : forall k, In k (names r) -> lookup k acc = lookup k cms) by (intros; apply AG; now right).
+  destruct (H n sm (or_introl eq_refl)) as (cm & L & RN).
+  assert (LA : lookup n acc = Some cm) by (rewrite AG; [exact L|now left]).
+  simpl. rewrite LA.
+  destruct sm as [smd smms|tg rt|tg rt y]; [|apply IH with (cms := cms); auto|apply IH with (cms := cms); auto].
+  unfold resettle_neutral in RN.
+  destruct (lookup n oms0) as [om0|].
+  - destruct (final cm) as [cmd cmms|tg rt|tg rt y] eqn:FC; [|apply IH with (cms := cms); auto|apply IH with (cms := cms); auto].
+    destruct (kind_eqb (nkind cmd) (nkind smd) && is_container (nkind cmd)); [|apply IH with (cms := cms); auto].
+    rewrite (IH oms0 cms ND' H' _ (KEEPA _)).
+    eapply erase_ms_assign_same; eauto. apply erase_retarget. now rewrite FC.
+  - rewrite (IH oms0 cms ND' H' _ (KEEPA _)).
+    eapply erase_ms_assign_same; eauto.
+Qed.
+
+Lemma quiet_moved_members_in : forall rec sl oms0 n smd smms,
+  quiet_moved_members rec sl oms0 = true -> In (n, Obj smd smms) sl ->
+  match lookup n oms0 with
+  | None => quiet (Obj smd smms) = true
+  | Some om0 =>
+      match final om0 with
+      | Obj omd omms =>
+          if kind_eqb (nkind omd) (nkind smd) && is_container (nkind omd) then rec (Obj smd smms) (Obj omd omms) = true else True
+      | _ => True
+      end
+  end.
+Proof.
+  induction sl as [|[k sm] r IH]; simpl; intros oms0 n smd smms Q I; [contradiction|].
+  apply andb_true_iff in Q. destruct Q as [Q1 Q2].
+  destruct I as [I|I]; [|apply IH; auto].
+  inversion I; subst. destruct (lookup n oms0) as [om0|]; auto.
+  destruct (final om0); auto. destruct (kind_eqb (nkind d) (nkind smd) && is_container (nkind d)); auto.
+Qed.
+
+(* Unless a stub-only class / module carries a pending overload group for one of its own functions (finding C19-F5),
+   the second merge changes nothing but the bookkeeping dicts. *)
+Theorem second_merge_neutral_modulo_known : forall s,
+  wfs s -> has_dicts s = true -> root_container s = true ->
+  forall o r, merge_obj s o = Done r -> quiet_moved s o = true ->
+  erase_buf (resettle s o r) = erase_buf r.
+Proof.
+  induction s as [tg rt|tg rt x _|sd sms IH] using tree_ind'; intros W HD RC o r M Q; [discriminate|discriminate|].
+  destruct o as [od oms|tg rt|tg rt x]; [|simpl in M; discriminate|simpl in M; discriminate].
+  pose proof W as (NDm & _ & NDi & NDb & _).
+  destruct (field_table _ _ _ _ _ M NDm NDb) as (rms & -> & _ & T).
+  cbn [resettle]. rewrite !erase_eq. f_equal.
+  cbn [quiet_moved] in Q.
+  apply (resettle_members_erase resettle sms oms rms NDm); auto.
+  intros n sm I.
+  pose proof (in_lookup_nodup _ _ _ _ NDm I) as LS.
+  pose proof (wfs_member _ _ _ _ W I) as Wm.
+  pose proof (has_dicts_member _ _ _ _ HD I) as HDm.
+  rewrite Forall_forall in IH. specialize (IH (n, sm) I). simpl in IH.
+  rewrite (T n). unfold table. rewrite LS. unfold one, resettle_neutral.
+  destruct sm as [smd smms|tg rt|tg rt y]; [|destruct (lookup n oms); simpl; eauto|destruct (lookup n oms); simpl; eauto].
+  pose proof (quiet_moved_members_in _ _ _ _ _ _ Q I) as QE.
+  destruct (lookup n oms) as [om|] eqn:LO; cbn [option_map].
+  - eexists; split; [reflexivity|].
+    set (om1 := buffered (buf_of sd) n om) in *.
+    cbn [member_result].
+    destruct (final om1) as [omd omms|tg rt|tg rt y] eqn:F1.
+    + destruct (kind_eqb (nkind omd) (nkind smd)) eqn:K.
+      * destruct (is_container (nkind omd)) eqn:C.
+        -- destruct (buffered_final_container _ _ _ _ _ F1 C) as (FO & _).
+           rewrite FO, K, C in QE. simpl in QE.
+           assert (RCm : root_container (Obj smd smms) = true).
+           { simpl. apply kind_eqb_eq in K. now rewrite <- K. }
+           assert (DKm : dict_ok (Obj smd smms) = true) by (now rewrite <- has_dicts_dict_ok).
+           destruct (never_raises _ DKm RCm omd omms) as (t' & Mt).
+           pose proof Wm as (NDm' & _ & _ & NDb' & _).
+           destruct (scope_level _ _ _ _ _ Mt NDm' NDb') as (rd & rms' & -> & Kr & _).
+           assert (CM : retarget om1 (out_tree (merge_obj (Obj smd smms) (Obj omd omms))) = retarget om1 (Obj rd rms')) by (now rewrite Mt).
+           destruct (nkind omd) eqn:KO; simpl in C; try discriminate; rewrite CM, final_retarget_obj, Kr, K;
+             cbn [andb is_container]; rewrite FO; apply IH; auto.
+        -- destruct (nkind omd) eqn:KO; simpl in C; try discriminate.
+           ++ rewrite final_retarget_obj, merge_fun_kind, KO. now rewrite andb_false_r.
+           ++ rewrite final_retarget_obj. simpl. rewrite KO. now rewrite andb_false_r.
+      * rewrite F1, K. cbn [andb]. trivial.
+    + rewrite F1. trivial.
+    + rewrite F1. trivial.
+  - eexists; split; [reflexivity|].
+    apply settle_erase; [now rewrite quiet_set_rt|now rewrite has_dicts_set_rt].
+Qed.
+
+(* ------------------------------------------------------------------ the loader: stubs on the package __init__, no stubs submodules *)
+Lemma remerge_top_nil : forall s o cur, root_container s = true -> remerge_top [] s o cur = remerge s o cur.
+Proof.
+  intros [sd sms|tg rt|tg rt x] o cur RC; try discriminate.
+  destruct o as [od oms|? ?|? ? ?], cur as [cd cms|? ?|? ? ?]; reflexivity.
+Qed.
+
+Theorem load_package_in_package_stubs : forall s,
+  wfs s -> has_dicts s = true -> root_container s = true ->
+  forall top r, merge_obj s top = Done r ->
+  load_package2 top s [] = Ok (resettle s top r) /\
+  (quiet_moved s top = true -> erase_buf (resettle s top r) = erase_buf r).
+Proof.
+  intros s W HD RC top r M. split.
+  - unfold load_package2. rewrite M, remerge_top_nil by auto.
+    now rewrite (second_merge_resettles s W HD RC top r M).
+  - intros Q. now apply second_merge_neutral_modulo_known.
+Qed.
+
+(* ------------------------------------------------------------------ examples *)
+(* stubs:  class S:  def g(self, x: float) -> float   then   @overload def g(self, x: int) -> int   (still pending) *)
+Definition ex5_g : tree := Obj (with_ret (with_params (nd KFun) [("self", None); ("x", Some "float")]) (Some "float")) [].
+Definition ex5_S (buf : list (string * list string)) (ms : list (string * tree)) : tree := Obj (scope KCls buf) ms.
+Definition ex5_s : tree := Obj (scope KMod []) [("S", ex5_S [("g", ["g(self, x: int) -> int"])] [("g", ex5_g)])].
+(* runtime:  A = 1 *)
+Definition ex5_o : tree := Obj (scope KMod []) [("A", Obj (nd KAttr) [])].
+(* stubs with a usual stub-only class: only @overload signatures for m (no member m), and a method k *)
+Definition ex5_s_ok : tree :=
+  Obj (scope KMod []) [("S", ex5_S [("m", ["m(self) -> int"; "m(self, x: int) -> str"])] [("k", ex5_g)])].
+
+Lemma ex5_wfs : wfs ex5_s /\ wfs ex5_s_ok.
+Proof. split; simpl; repeat split; repeat constructor; simpl; intuition discriminate. Qed.
+
+(* finding C19-F5: the double merge is not idempotent, even up to the bookkeeping dicts *)
+Example double_merge_refuted :
+  exists s o r r2, wfs s /\ has_dicts s = true /\ root_container s = true /\ quiet_moved s o = false /\
+    merge_obj s o = Done r /\ load_package2 o s [] = Ok r2 /\ erase_buf r2 <> erase_buf r /\
+    at_path ["S"; "g"] r = Some ex5_g /\
+    at_path ["S"; "g"] r2 = Some (Obj (with_ov (with_ret (with_params (nd KFun) [("self", None); ("x", Some "float")]) (Some "float"))
+                                               (OvList ["g(self, x: int) -> int"])) []).
+Proof.
+  exists ex5_s, ex5_o. eexists. eexists.
+  split; [exact (proj1 ex5_wfs)|]. split; [reflexivity|]. split; [reflexivity|]. split; [reflexivity|].
+  split; [vm_compute; reflexivity|]. split; [vm_compute; reflexivity|].
+  split; [vm_compute; discriminate|]. split; vm_compute; reflexivity.
+Qed.
+
+(* the hypotheses of the idempotence theorem are satisfiable, and "up to buffers" is needed: the second merge drains the
+   pending group of the stub-only class *)
+Example double_merge_hypotheses_satisfiable :
+  exists r r2, wfs ex5_s_ok /\ has_dicts ex5_s_ok = true /\ root_container ex5_s_ok = true /\ quiet_moved ex5_s_ok ex5_o = true /\
+    merge_obj ex5_s_ok ex5_o = Done r /\ load_package2 ex5_o ex5_s_ok [] = Ok r2 /\
+    erase_buf r2 = erase_buf r /\ r2 <> r /\
+    at_path ["S"] r2 = Some (set_rt false (ex5_S [] [("k", ex5_g)])).
+Proof.
+  eexists. eexists.
+  split; [exact (proj2 ex5_wfs)|]. split; [reflexivity|]. split; [reflexivity|]. split; [reflexivity|].
+  split; [vm_compute; reflexivity|]. split; [vm_compute; reflexivity|].
+  split; [vm_compute; reflexivity|]. split; [vm_compute; discriminate|]. vm_compute; reflexivity.
+Qed.
+
+(* finding C19-F4: in-package stubs of a submodule are merged before the wildcard import of the runtime module is
+   expanded.  Runtime module as visited:  from _pkg import *  (one unexpanded alias);  stubs:  def scale(value: float) -> float.
+   CPython has pkg.sub.scale; the merged module holds it as a stub-only member. *)
+Definition ex4_o : tree := Obj (with_imp (scope KMod []) [("_pkg/*", "_pkg")]) [("_pkg/*", Al "_pkg" true)].
+Definition ex4_scale : tree := Obj (with_ret (with_params (nd KFun) [("value", Some "float")]) (Some "float")) [].
+Definition ex4_s : tree := Obj (scope KMod []) [("scale", ex4_scale)].
+
+Example F4_wildcard_facade_refuted :
+  exists r, set_member_module (mkF false ex4_o) (mkF true ex4_s) = Ok (mkF false r) /\
+    set_member_module (mkF true ex4_s) (mkF false ex4_o) = Ok (mkF false r) /\
+    names (members r) = ["_pkg/*"; "scale"] /\
+    at_path ["scale"] r = Some (set_rt false ex4_scale) /\ runtime_of (set_rt false ex4_scale) = false.
+Proof. eexists. repeat split; vm_compute; reflexivity. Qed.
+
+(* ------------------------------------------------------------------ finding C19-F6 on the sequential model *)
+From Verif Require Import Model.C19_seq.
+(* pkg/m.py: A = 1     pkg/m.pyi: A: int     pkg/user.py: from pkg.m import A     pkg/user.pyi: A: complex *)
+Definition ex6_mpy : fmod := mkF false (Obj (scope KMod []) [("A", Obj (nd KAttr) [])]).
+Definition ex6_mpyi : fmod := mkF true (Obj (scope KMod []) [("A", Obj (with_ann (nd KAttr) (Some "int")) [])]).
+Definition ex6_upy : fmod := mkF false (Obj (with_imp (scope KMod []) [("A", "pkg.m.A")]) [("A", Al "pkg.m.A" true)]).
+Definition ex6_upyi : fmod := mkF true (Obj (scope KMod []) [("A", Obj (with_ann (nd KAttr) (Some "complex")) [])]).
+
+Definition ann_of_A (s : seq_state) : option (option string) :=
+  match lookup "m" (s_mods s) with
+  | Some fm => match get_path ["A"] (body fm) with Some (Obj d _) => Some (nann d) | _ => None end
+  | None => None
+  end.
+
+(* the pair (m.py, m.pyi) with the pair of a re-exporting module arriving in between: which file of the pair comes first
+   decides the merged annotation, and stubs-first leaves pkg.user.A bound to the dropped stub object *)
+Example interleaved_pair_order_refuted :
+  let stubs_first := load_seq 8 "pkg" [("m", ex6_mpyi); ("user", ex6_upy); ("user", ex6_upyi); ("m", ex6_mpy)] in
+  let runtime_first := load_seq 8 "pkg" [("m", ex6_mpy); ("user", ex6_upy); ("user", ex6_upyi); ("m", ex6_mpyi)] in
+  ann_of_A stubs_first = Some (Some "complex") /\ ann_of_A runtime_first = Some (Some "int") /\
+  s_stale stubs_first = ["pkg.user.A"] /\ s_stale runtime_first = [] /\
+  s_dirty stubs_first = false /\ s_dirty runtime_first = false /\
+  (* adjacent files of the pair: the same result in both orders *)
+  s_mods (load_seq 8 "pkg" [("m", ex6_mpyi); ("m", ex6_mpy); ("user", ex6_upy); ("user", ex6_upyi)]) =
+  s_mods (load_seq 8 "pkg" [("m", ex6_mpy); ("m", ex6_mpyi); ("user", ex6_upy); ("user", ex6_upyi)]).
+Proof. repeat split; vm_compute; reflexivity. Qed.
